@@ -24,6 +24,7 @@ from .core import ROOT, Streams, func_adl_src, mix
 
 ENGINE_VERSION = 1
 CHUNK = 2
+ISOLATE = False  # every node already is a fresh interpreter
 RULE = ("one case = one cluster run: 2-4 fresh interpreters (own PYTHONHASHSEED, clock epoch, import "
         "order, pre-history) + one rehash node; 6-14 base queries built 2-4 ways each plus their "
         "single-edit neighbours (operator, name, constant value, constant type, argument order, "
@@ -189,7 +190,8 @@ def generate(prop, seed, tier="quick", fault_free=False):
     ops = []
     bid = 0
     for b in bases:
-        extra = w.choice([None, None, ["MetaData", {"m": 1}], ["AsAwkwardArray", ["c1"]]])
+        extra = w.choice([None, None, ["MetaData", {"m": 1}], ["AsAwkwardArray", ["c1"]],
+                          ["MetaData", {}]])
         variants = [("base", b)]
         for kind in EDITS:
             if w.random() < 0.6:
@@ -207,7 +209,8 @@ def generate(prop, seed, tier="quick", fault_free=False):
                       "layout": w.randrange(8), "dataset": w.randrange(3), "post": post,
                       "qmd": (not fault_free) and w.random() < 0.3,
                       "exec_before": (not fault_free) and w.random() < 0.15,
-                      "want_pickle": (not fault_free) and w.random() < 0.4}
+                      "want_pickle": (not fault_free) and w.random() < 0.4,
+                      "hash_early": (not fault_free) and w.random() < 0.35}
                 if not fault_free:
                     if f.random() < 0.25:
                         op["clock_jump"] = f.choice([1.0, 86400.0, 3.0e8])
@@ -249,6 +252,10 @@ def _how(a, b):
             out.append(tag)
     if a.get("rehash") != b.get("rehash"):
         out.append("rehash_after_restart")
+    if a.get("hash_early") != b.get("hash_early"):
+        out.append("hashed_earlier")
+    if a.get("received") != b.get("received"):
+        out.append("received_by_executor")
     return out
 
 
@@ -282,9 +289,20 @@ def execute(case):
             results.append((meta, r["hash"], r["canon"]))
             events.append(f"{b['id']}|{r['hash']}|{hashlib.sha1(r['canon'].encode()).hexdigest()[:10]}")
             stat("builds")
+            if b.get("hash_early"):
+                stat("fault_hashed_earlier_in_process")
+            rv = r.get("received")
+            if rv is not None:
+                # the AST the executor received is one more build of whatever structure it has
+                results.append(({**meta, "received": True}, rv["hash"], rv["canon"]))
+                stat("executor_received_asts_hashed")
+                if rv["pristine"] != rv["hash"] and viol is None:
+                    viol = {"class": "C20/split", "detail": {"kind": "received-ast-vs-pristine-copy",
+                                                              "build": _brief(b)}}
             for tag, h2 in r.get("again", {}).items():
                 stat({"after_clock_jump": "fault_clock_jump", "after_attach": "fault_annotation_attach_detach",
-                      "after_detach": "fault_annotation_detach", "after_relocate": "fault_relocate_positions"}[tag])
+                      "after_detach": "fault_annotation_detach", "after_relocate": "fault_relocate_positions",
+                      "pristine_copy": "pristine_copy_checks"}[tag])
                 if h2 != r["hash"] and viol is None:
                     viol = {"class": "C20/split", "detail": {"kind": tag, "build": _brief(b),
                                                               "hash_before": r["hash"], "hash_after": h2}}
@@ -360,7 +378,8 @@ def _brief(b):
 
 def op_simplifications(op):
     out = []
-    for k in ("clock_jump", "annotate", "relocate", "qmd", "exec_before", "want_pickle", "post"):
+    for k in ("clock_jump", "annotate", "relocate", "qmd", "exec_before", "want_pickle", "post",
+              "hash_early"):
         if op.get(k):
             o = dict(op)
             o[k] = None if k in ("post", "clock_jump") else False
